@@ -367,10 +367,6 @@ Proof.
       replace (length a1 - (length a1 - t)) with t in Hsuf by lia.
       replace (length b1 - (length b1 - t)) with t in Hsuf by lia.
       apply Forall2_rev in Hsuf. rewrite !rev_involutive in Hsuf.
-      replace (length a1 - t) with (length a1 - t) in Hsuf by lia.
-      unfold posta, postb.
-      replace (length a1 - t) with (length a1 - t) by lia.
-      (* firstn t (rev l) = rev (skipn (length l - t) l) *)
       exact Hsuf. }
     set (m := length aa). set (n := length bb).
     destruct (fill_ok m n aa bb 0 (repeat 0 ((m + 1) * (n + 1)))) as (c & Hfill & Hclen);
